@@ -264,6 +264,85 @@ def coq_obligation(ck, name, path, text, timeout=900):
     return ok, out
 
 
+FULL_V = r"""(* GENERATED per run: tracing does not perturb execution, for the regenerated interpreters (C14, no hypotheses left) *)
+From Coq Require Import ZArith NArith List Bool String.
+From Lib Require Import ZOps Machine.
+From Spec Require Import ISA TraceSpec.
+From Model Require Import Disasm.
+From Props Require Import DisasmProps SafeLib CpuEqLib.
+From Props Require RelLib.
+From Gen Require Import GenFields.
+From Gen Require GenCpu65 GenCpuAlt.
+From Run Require Import C14_pure.
+From Run Require C08_GenCpu65 C08_GenCpuAlt C14_rel_GenCpu65 C14_rel_GenCpuAlt.
+Import ListNotations.
+Local Open Scope Z_scope.
+
+(* the state invariant: every register field within its Go type (nothing about the recorded trace) *)
+Definition finv (s : st) : Prop := forall f, Bty fwidth f (get f s).
+
+Lemma finv_same : forall s1 s2, same s1 s2 -> finv s1 -> finv s2.
+Proof. intros s1 s2 H Hi f. rewrite <- (same_get f s1 s2 H). apply Hi. Qed.
+
+Lemma finv_pc_ok : forall s, finv s -> pc_ok flds s.
+Proof.
+  intros s Hi. split.
+  - pose proof (Hi f_RK) as H. cbv [Bty fwidth f_RK] in H. exact H.
+  - pose proof (Hi f_PC) as H. cbv [Bty fwidth f_PC] in H. exact H.
+Qed.
+
+Definition untraced (s : st) : st := mkst (regs s) (mem s) [] (onpc s) (onwdm s).
+Lemma untraced_same : forall s, same s (untraced s).
+Proof. intros s. repeat split. Qed.
+Lemma untraced_inv : forall s, finv s -> Inv (Bty fwidth) (untraced s).
+Proof. intros s Hi. split; [exact Hi | constructor]. Qed.
+
+Section One.
+  Variable step : st -> res (Z * bool).
+  Hypothesis step_rel : forall s1 s2, RelLib.same s1 s2 -> RelLib.rsame (step s1) (step s2).
+  Hypothesis step_safe : forall s, Inv (Bty fwidth) s -> safe (fun _ s' => Inv (Bty fwidth) s') (step s).
+
+  Lemma step_same : forall s1 s2, same s1 s2 -> res_same (step s1) (step s2).
+  Proof. intros s1 s2 H. exact (step_rel s1 s2 H). Qed.
+
+  Lemma step_finv : forall s r s', finv s -> step s = Ok r s' -> finv s'.
+  Proof.
+    intros s r s' Hi E.
+    pose proof (step_safe (untraced s) (untraced_inv s Hi)) as HS.
+    pose proof (step_same s (untraced s) (untraced_same s)) as HR. rewrite E in HR.
+    destruct (step (untraced s)) as [r0 s0|]; simpl in HS, HR; [|contradiction].
+    destruct HR as [_ Hsame]. apply (finv_same s0 s'); [apply same_sym; exact Hsame | exact (proj1 HS)].
+  Qed.
+End One.
+
+(* C14, first half, for the interpreter the System embeds and for the alternative one: for every start state with
+   fields in their Go types, every target, budget and fuel: RunUntil with a Logger (whose lines come from the
+   disassembler) and without one end with the same answer, cycle total, registers (AllCycles included) and memory *)
+Theorem C14_no_perturbation_full_65 : forall fixed fuel target maxc s, finv s ->
+  outcome_same (run_until flds GenCpu65.Step (Some (disassemble (cfg65 fixed))) fuel target maxc 0 s [])
+               (run_until flds GenCpu65.Step None fuel target maxc 0 s []).
+Proof.
+  intros fixed. apply (C14_no_perturbation_65 fixed GenCpu65.Step finv).
+  - exact (step_same GenCpu65.Step C14_rel_GenCpu65.step_same_GenCpu65).
+  - exact (step_finv GenCpu65.Step C14_rel_GenCpu65.step_same_GenCpu65 C08_GenCpu65.C08_step_GenCpu65).
+  - exact finv_same.
+  - exact finv_pc_ok.
+Qed.
+Theorem C14_no_perturbation_full_alt : forall fixed fuel target maxc s, finv s ->
+  outcome_same (run_until flds GenCpuAlt.Step (Some (disassemble (cfgalt fixed))) fuel target maxc 0 s [])
+               (run_until flds GenCpuAlt.Step None fuel target maxc 0 s []).
+Proof.
+  intros fixed. apply (C14_no_perturbation_alt fixed GenCpuAlt.Step finv).
+  - exact (step_same GenCpuAlt.Step C14_rel_GenCpuAlt.step_same_GenCpuAlt).
+  - exact (step_finv GenCpuAlt.Step C14_rel_GenCpuAlt.step_same_GenCpuAlt C08_GenCpuAlt.C08_step_GenCpuAlt).
+  - exact finv_same.
+  - exact finv_pc_ok.
+Qed.
+Print Assumptions C14_no_perturbation_full_65.
+Print Assumptions C14_no_perturbation_full_alt.
+"""
+
+
 def run_c14(ck):
     ck.trusted = list(TRUST)
     os.makedirs(vlib.RUN, exist_ok=True)
@@ -282,6 +361,34 @@ def run_c14(ck):
                 "C14_no_perturbation_65/_alt (forall step, fuel, target, maxCycles, state: RunUntil with logger and without end in the same registers incl. "
                 "AllCycles, memory, answer and cycle total) over the regenerated nRead; Lemmas nread65_ok / nreadalt_ok",
             os.path.join(vlib.RUN, "C14_pure.v"), PURE_V)
+        if pure_ok:
+            # the two facts about the regenerated Step that the no-perturbation theorem needs, proved on this run:
+            # (i) Step never looks at the recorded trace (checks/cpurel.py + Props/RelLib.v), (ii) Step keeps every
+            # field within its Go type (C08's theorem), then the theorem without hypotheses
+            from checks import cpusafe, cpurel
+            okp = True
+            def prep(mod):
+                t, _ = cpusafe.generate(os.path.join(vlib.GEN, mod + ".v"), mod)
+                p8 = os.path.join(vlib.RUN, "C08_%s.v" % mod)
+                vlib.write_if_changed(p8, t)
+                r8 = vlib.coqc(p8, timeout=1800)
+                t, _ = cpurel.generate(os.path.join(vlib.GEN, mod + ".v"), mod)
+                pr = os.path.join(vlib.RUN, "C14_rel_%s.v" % mod)
+                vlib.write_if_changed(pr, t)
+                rr = vlib.coqc(pr, timeout=1800)
+                return mod, r8, rr
+            for (mod, r8, rr) in vlib.parallel([lambda m=m: prep(m) for m in ("GenCpu65", "GenCpuAlt")]):
+                mm = re.search(r"\(in proof (\w+)\)", rr[1])
+                okp = ck.oblige("Theorem step_same_%s : forall s1 s2, same s1 s2 -> rsame (Step s1) (Step s2)  [the regenerated Step never looks at the recorded bus "
+                                "trace: one two-run lemma per translated routine, %.0fs]" % (mod, rr[2]), rr[0] == 0,
+                                "" if rr[0] == 0 else "first lemma that no longer checks: " + (mm.group(1) if mm else rr[1][-500:])) and okp
+                okp = ck.oblige("Theorem C08_step_%s (Step keeps every field within its Go type; re-used here)" % mod, r8[0] == 0, "" if r8[0] == 0 else r8[1][-500:]) and okp
+            if okp:
+                coq_obligation(
+                    ck, "Theorems C14_no_perturbation_full_65 / _alt : forall variant fuel target maxc s, (every field of s within its Go type) -> RunUntil over the "
+                        "regenerated Step with a Logger fed by the disassembler and without one end with the same answer, cycle total, registers (AllCycles "
+                        "included) and memory - no hypothesis left",
+                    os.path.join(vlib.RUN, "C14_full.v"), FULL_V)
         tbl_ok, tbl_out = coq_obligation(
             ck, "Lemmas tbl65_agrees / tblalt_agrees : ISA.table_agrees <regenerated opcode table> = true (mnemonic, mode and nominal size of all 256 "
                 "opcodes of both packages against the independent matrix)",
